@@ -463,3 +463,4 @@ func parseModelVal(x *sexp) (ModelVal, error) {
 	}
 	return ModelVal{}, fmt.Errorf("unrecognised value")
 }
+
